@@ -74,7 +74,9 @@ def get_model(obj: T) -> Any:
     Finds model root element for the given object.
     """
     p = obj
-    while hasattr(p, "parent"):
+    # The root has no parent. A user class of the root rule may still keep
+    # the attribute (`parent=None`).
+    while getattr(p, "parent", None) is not None:
         p = p.parent
     return p
 
@@ -100,7 +102,7 @@ def get_parent_of_type(typ: str | type[T], obj: Any) -> T | None:
     if not isinstance(typ, str):
         typ = typ.__name__
 
-    while hasattr(obj, "parent"):
+    while getattr(obj, "parent", None) is not None:
         obj = obj.parent
         if obj.__class__.__name__ == typ:
             return obj
